@@ -257,6 +257,13 @@ def printfFirstTry (cap : Nat) (text : List Nat) : Bool := decide ((vsnprintf ca
 /-- capacity of a default constructed String after `detach(0, 200)`: `200 | 0x3` -/
 def printfCap : Nat := 203
 
+/-- `String::fromPrintf(format, ...)`: the same two attempts on `String s(200)` (capacity `200 | 0x3`), a separate
+    function body in String.cpp (lines 58-97) -/
+def fromPrintf (text : List Nat) : List Nat :=
+  let r := vsnprintf printfCap text
+  if r.2 < printfCap then r.1.take r.2
+  else (vsnprintf (r.2 + 1) text).1
+
 def fromInt (v : Int) : List Nat := printf printfCap (fmtSigned v)        -- "%d"
 def fromUInt (v : Nat) : List Nat := printf printfCap (decDigits v)       -- "%u"
 def fromInt64 (v : Int) : List Nat := printf printfCap (fmtSigned v)      -- "%lld"
